@@ -10,6 +10,10 @@ ORD = ("Less", "Equal", "Greater")
 class Unrecognised(Exception):
     pass
 
+class Mismatch(Exception):
+    """a recognised construct that positively deviates from the reference (wrong orientation, different indices, ...)"""
+    pass
+
 def _short(c):
     c = str(c)
     if "impl std::cmp::Ord for " in c: return "Ord<" + c.split("impl std::cmp::Ord for ", 1)[1].split(">::", 1)[0].split("::")[-1] + ">::cmp"
@@ -341,8 +345,8 @@ def slice_lex(F, fn):
             da = describe_elem(fn, a); db = describe_elem(fn, b)
             if da and db:
                 if da[0] == "elem" and db[0] == "elem":
-                    if (da[1], db[1]) != (1, 2): raise Unrecognised("element comparison is not oriented left,right: %s" % ((da, db),))
-                    if da[2] != db[2]: raise Unrecognised("elements compared at different indices")
+                    if (da[1], db[1]) != (1, 2): raise Mismatch("element comparison is not oriented left,right: %s" % ((da, db),))
+                    if da[2] != db[2]: raise Mismatch("elements compared at different indices")
                     elem = c; bound = da[3]
                     # the loop returns this result when it is not Equal
                     dest = t[3][0]
@@ -360,11 +364,11 @@ def slice_lex(F, fn):
                                         for o in mir.trace_place(fn, [0], transparent=()):
                                             if o.kind == "call" and o.data == bi: in_loop_ret = True
                 elif da[0] == "len" and db[0] == "len":
-                    if (da[1], db[1]) != (1, 2): raise Unrecognised("length comparison is not oriented left,right")
+                    if (da[1], db[1]) != (1, 2): raise Mismatch("length comparison is not oriented left,right")
                     tail = "len"
                 elif da[0] == "padded" and db[0] == "padded":
-                    if (da[1], db[1]) != (1, 2): raise Unrecognised("padded comparison is not oriented left,right")
-                    if da[2] != db[2]: raise Unrecognised("padded elements at different indices")
+                    if (da[1], db[1]) != (1, 2): raise Mismatch("padded comparison is not oriented left,right")
+                    if da[2] != db[2]: raise Mismatch("padded elements at different indices")
                     elem = c; bound = ("padded", da[3], db[3], da[4])
                     dest = t[3][0]
                     for o in mir.trace_place(fn, [0], transparent=()):
